@@ -773,6 +773,7 @@ func TestC17(t *testing.T) {
 		}
 		s := &sc.Subs[rng.IntN(len(sc.Subs))]
 		s.Topics = []string{"a", "b", "c", ""}
+		s.AliasPrev = false
 		if sc.autoIDs() {
 			s.LastID = strconv.Itoa(lo)
 		} else {
